@@ -936,3 +936,15 @@ def apply_fallback(ctx, W, recipe, specs, reason):
                           ensures=[(c[0], tuple(c[1]), c[2]) if c[2] else (c[0], tuple(c[1])) for c in sp["ensures"]],
                           decreases=None, attrs=sp["attrs"], tags=sp["tags"], unit=sp["unit"], returns=sp["returns"], no_unwind=sp["no_unwind"])
     ctx.lost[recipe] = {"reason": reason, "units": units, "tags": sorted(tags)}
+
+
+def bind_tail(ctx, fw, unit, fnnode, name, proof_text, tags=()):
+    """W10 (ghost only): the tail expression `E` of a function becomes `let NAME = E; proof { .. } NAME`, so that a
+    proof block can speak about the value that is returned.  The value and the evaluation order are unchanged."""
+    st = fw.top_stmts(fnnode)
+    if not st or st[-1]["kind"] != "stmt_expr" or st[-1].get("semi"):
+        raise WeaveError("%s: bind_tail: `%s` does not end in a tail expression" % (fw.rel, fw.fn_qualname(fnnode)))
+    s_, e_ = st[-1]["span"]
+    fw.insert(s_, "let %s = " % name, rule="W10-bind-tail")
+    ed = fw.insert(e_, ";\n        %s\n        %s" % (proof_text.strip(), name), rule="W10-bind-tail")
+    ctx.clause(unit, "ghost", proof_text, set(tags), ed)
